@@ -270,6 +270,16 @@ func Open(name string) (*File, error) {
 		Yield("fs.open")
 		return nil, err
 	}
+	if s.Opts.Mode == ModeFree && p != nil && p.Rng != nil && p == s.FS.Default {
+		// the default plan is shared by every file: give each open its own random stream (readers run in parallel)
+		cp := *p
+		st := p.Rng.state
+		for i := 0; i < len(name); i++ {
+			st = (st ^ uint64(name[i])) * 0x100000001b3
+		}
+		cp.Rng = &LocalRand{state: st}
+		p = &cp
+	}
 	sf := &File{File: f, path: name, plan: p}
 	if s.Opts.Mode != ModeFree {
 		if fi, err := f.Stat(); err == nil {
